@@ -202,6 +202,14 @@ func HasDotSegment(name string) bool {
 	return false
 }
 
+// HasEmptySegment reports whether name has an empty "/"-separated segment
+// other than a single trailing one: a leading "/" or "//" anywhere. A file
+// system drops such segments, so the name would resolve to the location of a
+// different name ("a//b" to that of "a/b").
+func HasEmptySegment(name string) bool {
+	return strings.HasPrefix(name, "/") || strings.Contains(name, "//")
+}
+
 // IsPathComponent reports whether s can be used as a single path element:
 // it contains no separator and is neither "." nor "..".
 func IsPathComponent(s string) bool {
@@ -228,7 +236,7 @@ func ParseCopySource(copySourceHeader string) (string, string, string, error) {
 	if !ok {
 		return "", "", "", s3err.GetAPIError(s3err.ErrInvalidCopySource)
 	}
-	if HasDotSegment(copySource) || !IsPathComponent(versionId) {
+	if HasDotSegment(copySource) || HasEmptySegment(copySource) || !IsPathComponent(versionId) {
 		return "", "", "", s3err.GetAPIError(s3err.ErrInvalidCopySource)
 	}
 
